@@ -126,12 +126,34 @@ def check(ctx, rule, procedures):
     F = ctx.facts
     spec = load_spec()
     dev = load_deviations()
+    # a W3C procedure that has no function of its own any more (a maintainer inlined it) is read where the spec calls it: its
+    # pseudo-code vocabulary is added to that of its callers, one level deep
+    def implemented(p):
+        return F.has_fn("fsm::Fsm::" + p)
+
+    def expanded(name):
+        sprocs, sops = spec[name]
+        sprocs, sops = collections.Counter(sprocs), collections.Counter(sops)
+        for p in list(sprocs):
+            if p in spec and p != name and not implemented(p):
+                n = sprocs.pop(p)
+                ip, io = spec[p]
+                for q, c in ip.items():
+                    sprocs[q] += c * n
+                for q, c in io.items():
+                    sops[q] += c * n
+        return sprocs, sops
     for name in procedures:
         if name not in spec:
             ctx.ob(rule, "spec|" + name, False, "", "procedure %s not found in spec/w3c_algorithm.txt" % name, kind="anchor")
             continue
+        if not implemented(name):
+            callers = [q for q in spec if q != name and name in spec[q][0] and implemented(q)]
+            ctx.ob(rule, "%s|inlined into its callers" % name, bool(callers), "",
+                   "no function %s: its pseudo-code is checked inside %s" % (name, callers or "nobody (the procedure is gone)"), kind="anchor")
+            continue
         fn = F.fn("fsm::Fsm::" + name)
-        sprocs, sops = spec[name]
+        sprocs, sops = expanded(name)
         iprocs, iops = impl_tokens(F, fn)
         for p in sorted(sprocs):
             key = "%s|calls %s" % (name, p)
